@@ -1371,7 +1371,10 @@ def enclosing_loops(body):
 class SubCheck:
     """Run another property's rule module inside a check, keeping only some of its rules under a new rule id."""
 
-    def __init__(self, ck, new_rule, desc, only_rules):
+    def __init__(self, ck, new_rule, desc, only_rules, key_re=None):
+        self.key_re = re.compile(key_re) if key_re else None
+        self.rules = {}
+        self.exhaustive_rules = set()
         self.ck = ck
         self.new_rule = new_rule
         self.only = set(only_rules)
@@ -1383,19 +1386,22 @@ class SubCheck:
         self.assumptions = []
         self.instances = []
 
-    def rule(self, *a, **k):
-        pass
+    def rule(self, rid=None, desc="", *a, **k):
+        self.rules[rid] = desc
 
     def note(self, s_):
         pass
 
+    def _want(self, rule, key):
+        return rule in self.only and (self.key_re is None or self.key_re.search(key) is not None)
+
     def ok(self, rule, key, detail="", loc=None):
-        if rule in self.only:
+        if self._want(rule, key):
             self.ck.ok(self.new_rule, "%s:%s" % (rule, key), detail, loc)
         self.instances.append({"rule": rule, "key": key, "ok": True})
 
     def bad(self, rule, key, detail, loc=None):
-        if rule in self.only or rule == "anchor":
+        if self._want(rule, key) or rule == "anchor":
             self.ck.bad(self.new_rule, "%s:%s" % (rule, key), detail, loc)
         self.instances.append({"rule": rule, "key": key, "ok": False})
 
